@@ -44,7 +44,16 @@ def generate(ctx):
         else:
             params = {"loc": rng.choice([0.0, -1.0, 1.5, round(rng.uniform(-2, 3), 3)]),
                       "scale": rng.choice([0.1, 0.25, 0.5, 0.9, round(rng.uniform(0.1, 1.0), 3)])}
-        yield {"part": "dist", "dist": dist, "params": params, "as": rng.choice(["f64tensor", "f64tensor", "pyfloat"])}
+        d = {"part": "dist", "dist": dist, "params": params, "as": rng.choice(["f64tensor", "f64tensor", "pyfloat"])}
+        if dist != "Poisson" and rng.random() < 0.35:
+            # narrow distributions: the moment and parameterisation laws are stated for every valid scale, and the
+            # single-precision path python floats take is where cancellation shows
+            params["scale"] = rng.choice([1e-2, 3e-3, 1e-3, 3e-4, 1e-4, float(f"{10 ** rng.uniform(-4, -1):.3g}")])
+            if dist == "Normal":
+                params["loc"] = rng.choice([0.0, 1.0, -0.5, round(rng.uniform(-2, 2), 3)])
+            d["narrow"] = True
+            d["as"] = rng.choice(["f64tensor", "pyfloat", "pyfloat"])
+        yield d
     for _ in range(2500 if th else 200):
         nd = rng.randint(0, 2)
         yield {"part": "isi", "T": rng.choice([1, 2, 3, 5, 12, 40]), "pop": [rng.randint(1, 3) for _ in range(nd)],
@@ -216,7 +225,10 @@ def _dist(ctx, desc):
         x = torch.linspace(loc - 10 * scale, loc + 10 * scale, n, dtype=torch.float64)
     else:
         x = torch.exp(torch.linspace(loc - 11 * scale, loc + 11 * scale, n, dtype=torch.float64))
-    xs = x if f64 else x.float()
+    narrow = bool(desc.get("narrow"))
+    # a narrow density cannot be resolved on a single-precision support grid: python-float parameters then meet a
+    # double-precision support (the parameters still take the library's python-float conversion)
+    xs = x if (f64 or narrow) else x.float()
     lo, sc = conv(loc), conv(scale)
     pdf = _call(ctx, desc, "pdf", D.pdf, xs, lo, sc)
     lpdf = _call(ctx, desc, "logpdf", D.logpdf, xs, lo, sc)
@@ -242,16 +254,25 @@ def _dist(ctx, desc):
     v = float(torch.trapezoid((x - m) ** 2 * pdf, x))
     mean = float(D.mean(lo) if name == "Normal" else D.mean(lo, sc))
     var = float(D.variance(sc) if name == "Normal" else D.variance(lo, sc))
-    if not close(m, mean, rt=1e-5 if f64 else 5e-3, at=1e-6 if f64 else 5e-3):
+    if narrow:
+        ctx.count("narrow_moment_checks")
+    if not close(m, mean, rt=1e-5 if f64 else 5e-3, at=1e-6 if f64 else (1e-5 if narrow else 5e-3)):
         return ctx.violation(f"dist.{name}.mean_ne_first_moment", f"mean {mean} vs moment {m}", desc)
-    if not close(v, var, rt=1e-4 if f64 else 1e-2, at=1e-6 if f64 else 5e-3):
+    # the variance of a narrow distribution is far below any absolute band: relative comparison only
+    if not close(v, var, rt=1e-4 if f64 else (2e-3 if narrow else 1e-2), at=(0.0 if narrow else 1e-6) if f64 else (0.0 if narrow else 5e-3)):
         return ctx.violation(f"dist.{name}.variance_ne_second_moment", f"variance {var} vs moment {v}", desc)
     # mean/variance parameterisation round trip
     tm, tv = (abs(mean) + 0.5, var) if name == "LogNormal" else (mean, var)
     l2, s2 = D.params_mv(conv(tm), conv(tv))
     m2 = float(D.mean(l2) if name == "Normal" else D.mean(l2, s2))
     v2 = float(D.variance(s2) if name == "Normal" else D.variance(l2, s2))
-    if not (close(m2, tm, rt=1e-9 if f64 else 1e-4, at=1e-9 if f64 else 1e-4) and close(v2, tv, rt=1e-7 if f64 else 1e-3, at=1e-9 if f64 else 1e-4)):
+    if narrow:
+        okp = D.validate(loc=l2, scale=s2)
+        if not all(truthy(v_) for v_ in okp.values() if v_ is not None):
+            return ctx.violation(f"dist.{name}.params_mv_returns_invalid_parameters",
+                                 f"params_mv({tm},{tv}) = ({float(l2)},{float(s2)}) fails validate", desc)
+    vat = 0.0 if narrow else (1e-9 if f64 else 1e-4)
+    if not (close(m2, tm, rt=1e-9 if f64 else 1e-4, at=1e-9 if f64 else 1e-4) and close(v2, tv, rt=1e-6 if (f64 and narrow) else (1e-7 if f64 else (2e-3 if narrow else 1e-3)), at=vat)):
         return ctx.violation(f"dist.{name}.params_mv_roundtrip", f"mean/variance(params_mv({tm},{tv})) = ({m2},{v2})", desc)
 
 
